@@ -29,6 +29,8 @@ import Driver.OpsPrefork
 import Driver.OpsStreamC34
 import Driver.OpsTlsRoute
 import Driver.OpsHostPool
+import Driver.OpsPipeline
+import Driver.OpsClientConn
 import Driver.OpsCompressC22
 import Driver.OpsLockset
 import Driver.OpsServerCounters
@@ -37,7 +39,7 @@ import Driver.OpsMultipartC35
 open Fh Fh.Driver
 
 def handlers : List (String → List Bytes → Option String) :=
-  [opsByteClass, opsIntCodec, opsPath, opsFs, opsArgs, opsHeader, opsConn, Fh.Driver.C07.opsLimits, opsDateIP, opsFsPath, opsLB, opsPipe, opsCookie, opsDialer, opsWorkerPool, opsFsCache, opsRetry, opsURI, opsHeaderSet, opsAdaptor, opsRedirect, opsPrefork, opsStreamC34, opsTlsRoute, opsHostPool, opsCompressC22, opsLockset, opsServerCounters, opsMultipartC35]
+  [opsByteClass, opsIntCodec, opsPath, opsFs, opsArgs, opsHeader, opsConn, Fh.Driver.C07.opsLimits, opsDateIP, opsFsPath, opsLB, opsPipe, opsCookie, opsDialer, opsWorkerPool, opsFsCache, opsRetry, opsURI, opsHeaderSet, opsAdaptor, opsRedirect, opsPrefork, opsStreamC34, opsTlsRoute, opsHostPool, opsCompressC22, opsLockset, opsServerCounters, opsMultipartC35, opsPipeline, opsClientConn]
 
 def dispatch (line : String) : String :=
   match (line.splitOn " ").filter (· ≠ "") with
